@@ -1,8 +1,8 @@
-(* Proofs/FrontMatterSpecProofs.v — Part 3: the splitter agrees with the line-based spec on every
-   input outside the four known classes (fm_class = 0), for every well-formed delimiter. *)
+(* Proofs/FrontMatterSpecProofs.v — facts about the line-based specification Spec/FrontMatterSpec.v alone
+   (nothing about the model here): `lines` is a partition of the input into well-formed lines, one line at a
+   time (`cut_line`), what `find_closer` returns, the two readings of the documentation, and the line count. *)
 From Coq Require Import List NArith Bool Lia Arith.
-From V Require Import Base.Bytes Base.Res Model.FrontMatter Spec.FrontMatterSpec Spec.EscapeSpec
-  Proofs.FrontMatterProofs.
+From V Require Import Base.Bytes Base.Res Model.FrontMatter Spec.FrontMatterSpec.
 Import ListNotations.
 Local Open Scope list_scope.
 
@@ -84,256 +84,64 @@ Lemma lines_wf s : wf (lines s).
 Proof. apply lines_facts. Qed.
 
 (* ------------------------------------------------------------------------------------------------ *)
-(* find of a pattern that begins with LF, over joined lines *)
+(* one line at a time: the first line, its terminator, the text after it *)
 
-Definition shift (k : nat) (o : option nat) : option nat :=
-  match o with Some n => Some (k + n) | None => None end.
-
-Lemma shift_shift a b o : shift a (shift b o) = shift (a + b) o.
-Proof. destruct o; simpl; [f_equal; lia | reflexivity]. Qed.
-
-Lemma find_cons_lf r q :
-  find (x0a :: r) (x0a :: q) = if starts_with r q then Some 0 else shift 1 (find r (x0a :: q)).
-Proof.
-  cbn [find starts_with]. rewrite beqb_refl. cbn [andb].
-  destruct (starts_with r q); [reflexivity|]. destruct (find r (x0a :: q)); reflexivity.
-Qed.
-
-Lemma find_cons_other b r q : beqb b x0a = false ->
-  find (b :: r) (x0a :: q) = shift 1 (find r (x0a :: q)).
-Proof.
-  intro H. cbn [find starts_with]. rewrite H. cbn [andb]. destruct (find r (x0a :: q)); reflexivity.
-Qed.
-
-Lemma not_nl_not_lf b : is_nl b = false -> beqb b x0a = false.
-Proof. unfold is_nl. intro H. apply orb_false_elim in H. tauto. Qed.
-
-Lemma find_app_clean c r q : clean c = true ->
-  find (c ++ r) (x0a :: q) = shift (List.length c) (find r (x0a :: q)).
-Proof.
-  induction c as [|b c IH]; intro H.
-  - cbn [app List.length]. destruct (find r (x0a :: q)); reflexivity.
-  - rewrite clean_cons in H. apply andb_true_iff in H. destruct H as [Hb Hc].
-    apply negb_true_iff in Hb. cbn [app]. rewrite (find_cons_other b _ q (not_nl_not_lf b Hb)).
-    rewrite (IH Hc), shift_shift. reflexivity.
-Qed.
-
-Lemma find_join_cons c e rest q : clean c = true ->
-  find (join ((c, e) :: rest)) (x0a :: q) =
-  match e with
-  | EEOF => shift (List.length c) (find (join rest) (x0a :: q))
-  | ECR => shift (List.length c + 1) (find (join rest) (x0a :: q))
-  | ELF => if starts_with (join rest) q then Some (List.length c)
-           else shift (List.length c + 1) (find (join rest) (x0a :: q))
-  | ECRLF => if starts_with (join rest) q then Some (List.length c + 1)
-             else shift (List.length c + 2) (find (join rest) (x0a :: q))
-  end.
-Proof.
-  intro H. rewrite join_cons, (find_app_clean c _ q H).
-  destruct e; cbn [eol_bytes app].
-  - rewrite find_cons_lf. destruct (starts_with (join rest) q); cbn [shift]; [f_equal; lia | apply shift_shift].
-  - rewrite (find_cons_other x0d _ q eq_refl), find_cons_lf.
-    destruct (starts_with (join rest) q); cbn [shift]; [f_equal; lia|].
-    rewrite !shift_shift. f_equal. lia.
-  - rewrite (find_cons_other x0d _ q eq_refl), shift_shift. reflexivity.
-  - reflexivity.
-Qed.
-
-Definition hdP (P : line -> bool) (ls : list line) : bool :=
-  match ls with l :: _ => P l | [] => false end.
-
-Fixpoint scanP (P : line -> bool) (ls : list line) : option nat :=
-  match ls with
-  | [] => None
-  | (c, e) :: rest =>
-    match e with
-    | EEOF => None
-    | ECR => shift (List.length c + 1) (scanP P rest)
-    | ELF => if hdP P rest then Some (List.length c) else shift (List.length c + 1) (scanP P rest)
-    | ECRLF => if hdP P rest then Some (List.length c + 1) else shift (List.length c + 2) (scanP P rest)
-    end
+Fixpoint cut_line (t : bytes) : bytes * eol * bytes :=
+  match t with
+  | [] => ([], EEOF, [])
+  | b :: r =>
+    if beqb b x0a then ([], ELF, r)
+    else if beqb b x0d then
+      match r with
+      | b2 :: r' => if beqb b2 x0a then ([], ECRLF, r') else ([], ECR, r)
+      | [] => ([], ECR, r)
+      end
+    else let '(c, e, r') := cut_line r in (b :: c, e, r')
   end.
 
-Lemma find_scanP P q ls : wf ls ->
-  (forall rest, wf rest -> starts_with (join rest) q = hdP P rest) ->
-  find (join ls) (x0a :: q) = scanP P ls.
+(* the lines after a line with terminator e and following text r *)
+Definition rest_lines (e : eol) (r : bytes) : list line := if terminated e then lines r else [].
+
+Lemma lines_cut t : lines t = let '(c, e, r) := cut_line t in (c, e) :: rest_lines e r.
 Proof.
-  intros W H. induction W as [c Hc | c e rest Hc He Hcr W IH].
-  - rewrite (find_join_cons c EEOF [] q Hc). reflexivity.
-  - rewrite (find_join_cons c e rest q Hc). cbn [scanP].
-    rewrite (H rest W), IH. destruct e; try reflexivity. discriminate.
+  induction t as [|b r IH]; [reflexivity|].
+  cbn [lines cut_line]. destruct (beqb b x0a); [reflexivity|].
+  destruct (beqb b x0d).
+  - destruct r as [|b2 r']; [reflexivity|]. destruct (beqb b2 x0a); reflexivity.
+  - rewrite IH. destruct (cut_line r) as [[c e] r']. reflexivity.
 Qed.
 
-(* head matches *)
-Definition hd_nl (x : bytes) : bool := match x with [] => true | h :: _ => is_nl h end.
-
-Lemma sw_clean_exact c : forall d x y, clean c = true -> clean d = true -> hd_nl x = true ->
-  (exists h y', y = h :: y' /\ is_nl h = true) ->
-  starts_with (c ++ x) (d ++ y) = bytes_eqb c d && starts_with x y.
+Lemma cut_line_facts : forall t c e r, cut_line t = (c, e, r) ->
+  t = c ++ eol_bytes e ++ r /\ clean c = true /\ (e = EEOF -> r = []) /\
+  (e = ECR -> starts_with r fm_lf = false).
 Proof.
-  induction c as [|a c IH]; intros d x y Hc Hd Hx Hy.
-  - destruct d as [|b d]; [reflexivity|].
-    rewrite clean_cons in Hd. apply andb_true_iff in Hd. destruct Hd as [Hb _]. apply negb_true_iff in Hb.
-    cbn [app bytes_eqb andb]. destruct x as [|h x]; [reflexivity|]. cbn [starts_with hd_nl] in *.
-    destruct (beqb h b) eqn:E; [|reflexivity]. apply beqb_eq in E. subst. congruence.
-  - rewrite clean_cons in Hc. apply andb_true_iff in Hc. destruct Hc as [Ha Hc]. apply negb_true_iff in Ha.
-    destruct d as [|b d].
-    + destruct Hy as [h [y' [-> Hh]]]. cbn [app bytes_eqb andb starts_with].
-      destruct (beqb a h) eqn:E; [|reflexivity]. apply beqb_eq in E. subst. congruence.
-    + rewrite clean_cons in Hd. apply andb_true_iff in Hd. destruct Hd as [_ Hd].
-      cbn [app bytes_eqb starts_with]. rewrite (IH d x y Hc Hd Hx Hy). rewrite andb_assoc. reflexivity.
+  induction t as [|b t IH]; intros c e r H.
+  - injection H as <- <- <-. repeat split; try reflexivity; discriminate.
+  - cbn [cut_line] in H. destruct (beqb b x0a) eqn:Ea.
+    { apply beqb_eq in Ea. subst b. injection H as <- <- <-. repeat split; try reflexivity; discriminate. }
+    destruct (beqb b x0d) eqn:Ed.
+    { apply beqb_eq in Ed. subst b. destruct t as [|b2 t'].
+      - injection H as <- <- <-. repeat split; try reflexivity; discriminate.
+      - destruct (beqb b2 x0a) eqn:E2.
+        + apply beqb_eq in E2. subst b2. injection H as <- <- <-. repeat split; try reflexivity; discriminate.
+        + injection H as <- <- <-. repeat split; try reflexivity; try discriminate.
+          intros _. unfold fm_lf. cbn [starts_with]. rewrite E2. reflexivity. }
+    destruct (cut_line t) as [[c1 e1] r1] eqn:C. injection H as <- <- <-.
+    destruct (IH c1 e1 r1 eq_refl) as [Ht [Hc [He Hr]]].
+    repeat split; try assumption.
+    + cbn [app]. f_equal. exact Ht.
+    + rewrite clean_cons, Hc. unfold is_nl. rewrite Ea, Ed. reflexivity.
 Qed.
 
-Lemma sw_clean_prefix c : forall d x, clean c = true -> clean d = true -> hd_nl x = true ->
-  starts_with (c ++ x) d = starts_with c d.
+Lemma cut_line_nonempty t c e r : cut_line t = (c, e, r) -> t <> [] -> List.length r < List.length t.
 Proof.
-  induction c as [|a c IH]; intros d x Hc Hd Hx.
-  - destruct d as [|b d]; [reflexivity|].
-    rewrite clean_cons in Hd. apply andb_true_iff in Hd. destruct Hd as [Hb _]. apply negb_true_iff in Hb.
-    cbn [app]. destruct x as [|h x]; [reflexivity|]. cbn [starts_with hd_nl] in *.
-    destruct (beqb h b) eqn:E; [|reflexivity]. apply beqb_eq in E. subst. congruence.
-  - rewrite clean_cons in Hc. apply andb_true_iff in Hc. destruct Hc as [_ Hc].
-    destruct d as [|b d]; [reflexivity|].
-    rewrite clean_cons in Hd. apply andb_true_iff in Hd. destruct Hd as [_ Hd].
-    cbn [app starts_with]. rewrite (IH d x Hc Hd Hx). reflexivity.
-Qed.
-
-Lemma wf_tail_hd_nl c e rest : wf ((c, e) :: rest) -> hd_nl (eol_bytes e ++ join rest) = true.
-Proof.
-  intro W. inversion W; subst.
-  - reflexivity.
-  - destruct e; try reflexivity. discriminate.
-Qed.
-
-Lemma head_exact_lf d rest : clean d = true -> wf rest ->
-  starts_with (join rest) (d ++ fm_lf) = hdP (exact_with d ELF) rest.
-Proof.
-  intros Hd W. destruct rest as [|[c e] rest']; [inversion W|].
-  pose proof (wf_tail_hd_nl _ _ _ W) as Hx.
-  assert (Hc : clean c = true) by (inversion W; assumption).
-  rewrite join_cons. rewrite (sw_clean_exact c d _ fm_lf Hc Hd Hx) by (exists x0a, []; split; reflexivity).
-  cbn [hdP]. unfold exact_with. cbn [fst snd]. f_equal.
-  inversion W; subst; [reflexivity|]. destruct e; try reflexivity.
-  match goal with H : terminated EEOF = true |- _ => discriminate H end.
-Qed.
-
-Lemma head_exact_crlf d rest : clean d = true -> wf rest ->
-  starts_with (join rest) (d ++ fm_crlf) = hdP (exact_with d ECRLF) rest.
-Proof.
-  intros Hd W. destruct rest as [|[c e] rest']; [inversion W|].
-  pose proof (wf_tail_hd_nl _ _ _ W) as Hx.
-  assert (Hc : clean c = true) by (inversion W; assumption).
-  rewrite join_cons. rewrite (sw_clean_exact c d _ fm_crlf Hc Hd Hx) by (exists x0d, [x0a]; split; reflexivity).
-  cbn [hdP]. unfold exact_with. cbn [fst snd]. f_equal.
-  inversion W; subst; [reflexivity|]. destruct e; try reflexivity.
-  - (* ECR: CR matches, then the next byte is not LF *)
-    cbn [eol_bytes app fm_crlf starts_with]. rewrite beqb_refl. cbn [andb].
-    match goal with H : ECR = ECR -> _ |- _ => apply (H eq_refl) end.
-  - match goal with H : terminated EEOF = true |- _ => discriminate H end.
-Qed.
-
-Lemma head_prefix d rest : clean d = true -> wf rest ->
-  starts_with (join rest) d = hdP (fun l => starts_with (fst l) d) rest.
-Proof.
-  intros Hd W. destruct rest as [|[c e] rest']; [inversion W|].
-  pose proof (wf_tail_hd_nl _ _ _ W) as Hx.
-  assert (Hc : clean c = true) by (inversion W; assumption).
-  rewrite join_cons. apply (sw_clean_prefix c d _ Hc Hd Hx).
-Qed.
-
-Definition chainP (d : bytes) (ls : list line) : option nat :=
-  or_else (scanP (exact_with d ECRLF) ls)
-    (fun _ => or_else (scanP (exact_with d ELF) ls)
-    (fun _ => scanP (fun l => starts_with (fst l) d) ls)).
-
-Lemma chain_scan d ls : clean d = true -> wf ls -> chain (join ls) d = chainP d ls.
-Proof.
-  intros Hd W. unfold chain, chainP.
-  change (fm_lf ++ d ++ fm_crlf) with (x0a :: (d ++ fm_crlf)).
-  change (fm_lf ++ d ++ fm_lf) with (x0a :: (d ++ fm_lf)).
-  change (fm_lf ++ d) with (x0a :: d).
-  rewrite (find_scanP (exact_with d ECRLF) _ ls W (fun r => head_exact_crlf d r Hd)).
-  rewrite (find_scanP (exact_with d ELF) _ ls W (fun r => head_exact_lf d r Hd)).
-  rewrite (find_scanP (fun l => starts_with (fst l) d) _ ls W (fun r => head_prefix d r Hd)).
-  reflexivity.
+  intros H Ht. destruct (cut_line_facts _ _ _ _ H) as [E [_ [He _]]].
+  rewrite E, !app_length. destruct e; cbn [eol_bytes List.length]; try lia.
+  rewrite (He eq_refl) in *. destruct c; [exfalso; apply Ht; rewrite E; reflexivity|]. cbn [List.length]. lia.
 Qed.
 
 (* ------------------------------------------------------------------------------------------------ *)
-(* scanP on a list of lines *)
-
-Lemma scanP_none P ls : (forall l, In l (tl ls) -> P l = false) -> scanP P ls = None.
-Proof.
-  induction ls as [|[c e] rest IH]; intro H; [reflexivity|].
-  cbn [scanP]. cbn [tl] in H.
-  assert (Hh : hdP P rest = false) by (destruct rest as [|l r]; [reflexivity | apply H; left; reflexivity]).
-  assert (Hr : scanP P rest = None) by (apply IH; intros l Hl; apply H; destruct rest; [destruct Hl | right; exact Hl]).
-  rewrite Hh, Hr. destruct e; reflexivity.
-Qed.
-
-Lemma scanP_cons P c e rest :
-  scanP P ((c, e) :: rest) =
-  match e with
-  | EEOF => None
-  | ECR => shift (List.length c + 1) (scanP P rest)
-  | ELF => if hdP P rest then Some (List.length c) else shift (List.length c + 1) (scanP P rest)
-  | ECRLF => if hdP P rest then Some (List.length c + 1) else shift (List.length c + 2) (scanP P rest)
-  end.
-Proof. reflexivity. Qed.
-
-Definition lf_ended (e : eol) : bool := match e with ELF | ECRLF => true | _ => false end.
-
-Lemma scanP_first P l after : forall pre, pre <> [] ->
-  (forall x, In x (tl pre) -> P x = false) -> P l = true ->
-  (forall x, In x pre -> lf_ended (snd x) = true) ->
-  exists n, scanP P (pre ++ l :: after) = Some n /\ n + 1 = List.length (join pre).
-Proof.
-  induction pre as [|[c e] pre IH]; intros Hne Hn Hl He; [congruence|].
-  assert (Ee : lf_ended e = true) by (apply (He (c, e)); left; reflexivity).
-  destruct pre as [|p2 pre'].
-  - cbn [app scanP hdP]. rewrite Hl. rewrite join_cons. cbn [join flat_map]. rewrite app_nil_r, app_length.
-    destruct e; try discriminate; eexists; (split; [reflexivity | simpl; lia]).
-  - destruct IH as [n' [Hs Hn']]; [discriminate | | exact Hl | |].
-    + intros x Hx. apply Hn. right. exact Hx.
-    + intros x Hx. apply He. right. exact Hx.
-    + assert (Hp2 : P p2 = false) by (apply Hn; left; reflexivity).
-      cbn [app]. rewrite scanP_cons. cbn [hdP]. cbn [app] in Hs. rewrite Hs, Hp2.
-      rewrite (join_cons c e), !app_length.
-      destruct e; try discriminate; cbn [shift]; eexists; (split; [reflexivity | cbn [eol_bytes List.length]; lia]).
-Qed.
-
-Lemma scanP_some_inv P : forall ls n, scanP P ls = Some n ->
-  exists pre l after, ls = pre ++ l :: after /\ pre <> [] /\ P l = true /\ n + 1 = List.length (join pre).
-Proof.
-  induction ls as [|[c e] rest IH]; intros n H; [discriminate|].
-  cbn [scanP] in H.
-  assert (Rec : forall k m, List.length (eol_bytes e) = k -> scanP P rest = Some m ->
-            exists pre l after, (c, e) :: rest = pre ++ l :: after /\ pre <> [] /\ P l = true /\
-              (List.length c + k + m) + 1 = List.length (join pre)).
-  { intros k m Hk Hm. destruct (IH m Hm) as [pre [l [after [-> [Hne [Hl Hlen]]]]]].
-    exists ((c, e) :: pre), l, after. repeat split; try assumption; [discriminate|].
-    rewrite join_cons, !app_length. lia. }
-  assert (Hit : forall k, List.length (eol_bytes e) = k -> 1 <= k -> hdP P rest = true ->
-            exists pre l after, (c, e) :: rest = pre ++ l :: after /\ pre <> [] /\ P l = true /\
-              (List.length c + k - 1) + 1 = List.length (join pre)).
-  { intros k Hk Hk1 Hh. destruct rest as [|l after]; [discriminate|]. exists [(c, e)], l, after.
-    repeat split; [discriminate | exact Hh |].
-    rewrite join_cons. cbn [join flat_map]. rewrite app_nil_r, app_length.
-    rewrite Hk. lia. }
-  destruct e.
-  - destruct (hdP P rest) eqn:Hh.
-    + injection H as <-. destruct (Hit 1 eq_refl (le_n 1) eq_refl) as [pre [l [after G]]]. exists pre, l, after.
-      replace (List.length c + 1 - 1) with (List.length c) in G by lia. exact G.
-    + destruct (scanP P rest) as [m|] eqn:Hm; [|discriminate]. injection H as <-. apply (Rec 1 m eq_refl eq_refl).
-  - destruct (hdP P rest) eqn:Hh.
-    + injection H as <-. destruct (Hit 2 eq_refl (le_S 1 1 (le_n 1)) eq_refl) as [pre [l [after G]]]. exists pre, l, after.
-      replace (List.length c + 2 - 1) with (List.length c + 1) in G by lia. exact G.
-    + destruct (scanP P rest) as [m|] eqn:Hm; [|discriminate]. injection H as <-. apply (Rec 2 m eq_refl eq_refl).
-  - destruct (scanP P rest) as [m|] eqn:Hm; [|discriminate]. injection H as <-. apply (Rec 1 m eq_refl eq_refl).
-  - discriminate.
-Qed.
-
-(* ------------------------------------------------------------------------------------------------ *)
-(* find_closer *)
+(* find_closer, absorb_blank *)
 
 Lemma find_closer_some d : forall ls body after, find_closer d ls = Some (body, after) ->
   exists pre e, body = pre ++ [(d, e)] /\ ls = pre ++ (d, e) :: after /\
@@ -357,10 +165,26 @@ Proof.
   destruct Hx as [<- | Hx]; [exact E | apply (IH eq_refl x Hx)].
 Qed.
 
-Lemma exact_with_false d e x : bytes_eqb (fst x) d = false -> exact_with d e x = false.
-Proof. unfold exact_with. intros ->. reflexivity. Qed.
+Lemma absorb_app after bl after' : absorb_blank after = (bl, after') -> after = bl ++ after'.
+Proof.
+  unfold absorb_blank. destruct after as [|[c e] r]; [intros [= <- <-]; reflexivity|].
+  destruct c; [|intros [= <- <-]; reflexivity].
+  destruct (terminated e); intros [= <- <-]; reflexivity.
+Qed.
 
-(* ------------------------------------------------------------------------------------------------ *)
+
+Lemma bytes_eqb_refl d : bytes_eqb d d = true.
+Proof. apply bytes_eqb_eq. reflexivity. Qed.
+
+Lemma clean_app a b : clean (a ++ b) = clean a && clean b.
+Proof. unfold clean. rewrite existsb_app, negb_orb. reflexivity. Qed.
+
+Lemma delim_ok_clean d : delim_ok d = true -> clean d = true /\ d <> [].
+Proof. unfold delim_ok, clean. destruct d; [discriminate|]. intro H. split; [exact H | discriminate]. Qed.
+
+Lemma find_closer_nil_line d : d <> [] -> find_closer d [([], EEOF)] = None.
+Proof. intro H. cbn [find_closer]. destruct d; [congruence | reflexivity]. Qed.
+
 (* well-formed line lists: auxiliary facts *)
 
 Lemma wf_clean_in ls : wf ls -> forall c e, In (c, e) ls -> clean c = true.
@@ -396,424 +220,52 @@ Proof.
   - apply (IH c b). assumption.
 Qed.
 
-Definition is_cr (l : line) : bool := match snd l with ECR => true | _ => false end.
-
-Lemma hlc_clean c r : clean c = true -> has_lone_cr (c ++ r) = has_lone_cr r.
+(* what find_closer cuts off the lines of a text: the body is a prefix of the text, and the lines after it
+   are the lines of the remaining text (none when the closing line was the unterminated last line) *)
+Lemma find_closer_lines d : forall n t body after, List.length t <= n ->
+  find_closer d (lines t) = Some (body, after) ->
+  exists ec r, t = join body ++ r /\ after = rest_lines ec r /\ (ec = EEOF -> r = []).
 Proof.
-  induction c as [|b c IH]; intro H; [reflexivity|].
-  rewrite clean_cons in H. apply andb_true_iff in H. destruct H as [Hb Hc]. apply negb_true_iff in Hb.
-  unfold is_nl in Hb. apply orb_false_elim in Hb. destruct Hb as [_ Hd].
-  cbn [app has_lone_cr]. rewrite Hd. apply IH. exact Hc.
+  induction n as [|n IH]; intros t body after Hn H; rewrite lines_cut in H;
+    destruct (cut_line t) as [[c e] r] eqn:C; destruct (cut_line_facts _ _ _ _ C) as [Et [_ [He _]]];
+    cbn [find_closer] in H; destruct (bytes_eqb c d) eqn:E.
+  1,3: injection H as <- <-; exists e, r; split; [|split; [reflexivity | exact He]];
+       rewrite join_cons; cbn [join flat_map]; rewrite app_nil_r, <- app_assoc; exact Et.
+  - destruct t; [|cbn in Hn; lia]. injection C as <- <- <-. discriminate H.
+  - destruct (find_closer d (rest_lines e r)) as [[a b]|] eqn:F; [|discriminate H].
+    injection H as <- <-. unfold rest_lines in F. destruct (terminated e) eqn:Te; [|discriminate F].
+    assert (Hl : List.length r <= n).
+    { assert (t <> []) by (intros ->; injection C as <- <- <-; discriminate Te).
+      pose proof (cut_line_nonempty _ _ _ _ C H). lia. }
+    destruct (IH r a b Hl F) as [ec [r2 [Er [Ha Hec]]]].
+    exists ec, r2. split; [|split; assumption].
+    rewrite join_cons, Et, Er, <- !app_assoc. reflexivity.
 Qed.
 
-Lemma hlc_join L : forall M, wf (L ++ M) -> has_lone_cr (join L) = existsb is_cr L.
+(* the number of terminated lines is the number of line endings the parser counts *)
+Lemma count_line_endings_lines : forall s,
+  count_line_endings s = List.length (filter (fun l : line => terminated (snd l)) (lines s)).
 Proof.
-  induction L as [|[c e] L IH]; intros M W; [reflexivity|].
-  cbn [app] in W.
-  assert (Hc : clean c = true) by (inversion W; assumption).
-  rewrite join_cons, (hlc_clean c _ Hc). cbn [existsb]. unfold is_cr at 1. cbn [snd].
-  inversion W; subst.
-  - destruct L; [reflexivity | discriminate].
-  - specialize (IH M ltac:(assumption)).
-    destruct e; cbn [eol_bytes app orb].
-    + cbn [has_lone_cr]. change (beqb x0a x0d) with false. cbn iota. exact IH.
-    + cbn [has_lone_cr]. change (beqb x0d x0d) with true. change (beqb x0a x0a) with true.
-      change (beqb x0a x0d) with false. cbn iota. exact IH.
-    + match goal with H : ECR = ECR -> _ |- _ => specialize (H eq_refl); rename H into Hn end.
-      rewrite join_app in Hn. cbn [has_lone_cr]. change (beqb x0d x0d) with true. cbn iota.
-      destruct (join L) as [|h t]; [reflexivity|].
-      cbn [app] in Hn. unfold fm_lf in Hn. cbn [starts_with] in Hn. rewrite andb_true_r in Hn. rewrite Hn. reflexivity.
-    + discriminate.
+  apply bytes_ind2; [reflexivity|]. intros b r IHr IH2.
+  destruct (beqb b x0a) eqn:Ea.
+  { apply beqb_eq in Ea. subst b. rewrite lines_lf. cbn [count_line_endings filter snd terminated List.length beqb].
+    rewrite IHr. reflexivity. }
+  destruct (beqb b x0d) eqn:Ed.
+  { apply beqb_eq in Ed. subst b. destruct (starts_with r fm_lf) eqn:Er.
+    - destruct r as [|b2 r']; [discriminate|]. unfold fm_lf in Er. cbn [starts_with] in Er.
+      rewrite andb_true_r in Er. apply beqb_eq in Er. subst b2.
+      rewrite lines_crlf. cbn [filter snd terminated List.length]. rewrite <- (IH2 x0a r' eq_refl). reflexivity.
+    - rewrite (lines_cr r Er). cbn [filter snd terminated List.length]. rewrite <- IHr.
+      cbn [count_line_endings]. destruct r as [|b2 r']; [reflexivity|].
+      unfold fm_lf in Er. cbn [starts_with] in Er. rewrite andb_true_r in Er. rewrite Er. reflexivity. }
+  assert (Nb : is_nl b = false) by (unfold is_nl; rewrite Ea, Ed; reflexivity).
+  rewrite (lines_other b r Nb). cbn [count_line_endings]. rewrite Ea, Ed. cbn [andb orb Nat.add]. rewrite IHr.
+  pose proof (lines_wf r) as W. destruct (lines r) as [|[c e] ls]; [inversion W|].
+  cbn [filter snd]. destruct (terminated e); reflexivity.
 Qed.
 
-Lemma cut_eol_not_nl h t : is_nl h = false -> cut_eol (h :: t) = None.
-Proof.
-  unfold is_nl. intro H. apply orb_false_elim in H. destruct H as [H1 H2].
-  unfold cut_eol, fm_lf, fm_crlf. cbn [starts_with]. rewrite H1, H2. reflexivity.
-Qed.
-
-Lemma cut_eol_lf r : cut_eol (x0a :: r) = Some (fm_lf, r).
-Proof. reflexivity. Qed.
-Lemma cut_eol_crlf r : cut_eol (x0d :: x0a :: r) = Some (fm_crlf, r).
-Proof. reflexivity. Qed.
-Lemma cut_eol_cr r : starts_with r fm_lf = false -> cut_eol (x0d :: r) = None.
-Proof.
-  destruct r as [|b r]; [reflexivity|]. unfold fm_lf. cbn [starts_with]. rewrite andb_true_r. intro H.
-  unfold cut_eol, fm_lf, fm_crlf. cbn [starts_with]. rewrite H. reflexivity.
-Qed.
-
-Lemma clean_hd h t : clean (h :: t) = true -> is_nl h = false.
-Proof. rewrite clean_cons. intro H. apply andb_true_iff in H. destruct H as [H _]. apply negb_true_iff in H. exact H. Qed.
-
-Lemma clean_app a b : clean (a ++ b) = clean a && clean b.
-Proof. unfold clean. rewrite existsb_app, negb_orb. reflexivity. Qed.
-
-Lemma delim_ok_clean d : delim_ok d = true -> clean d = true /\ d <> [].
-Proof. unfold delim_ok, clean. destruct d; [discriminate|]. intro H. split; [exact H | discriminate]. Qed.
-
-Lemma starts_with_self_app d x : starts_with (d ++ x) d = true.
-Proof. apply starts_with_app. exists x. reflexivity. Qed.
-
-Lemma strip_prefix_app d x : strip_prefix (d ++ x) d = Some x.
-Proof. unfold strip_prefix. rewrite starts_with_self_app, skipn_app_len. reflexivity. Qed.
-
-Lemma bytes_eqb_refl d : bytes_eqb d d = true.
-Proof. apply bytes_eqb_eq. reflexivity. Qed.
-
-Lemma starts_with_refl d : starts_with d d = true.
-Proof. apply starts_with_app. exists []. symmetry. apply app_nil_r. Qed.
-
-(* ------------------------------------------------------------------------------------------------ *)
-(* what happens after the closing delimiter *)
-
-Definition tailproc (s front t2 : bytes) : option (bytes * bytes) :=
-  match t2 with
-  | [] => Some (s, [])
-  | _ :: _ =>
-    match cut_eol t2 with
-    | None => None
-    | Some (e2, t3) =>
-      match cut_eol t3 with
-      | Some (e3, t4) => Some (front ++ e2 ++ e3, t4)
-      | None => Some (front ++ e2, t3)
-      end
-    end
-  end.
-
-Lemma core_unfold s d : core s d =
-  match strip_prefix s d with
-  | None => None
-  | Some t =>
-    match cut_eol t with
-    | None => None
-    | Some (e0, t1) =>
-      match chain t1 d with
-      | None => None
-      | Some n => tailproc s (d ++ e0 ++ firstn n t1 ++ fm_lf ++ d) (skipn (n + 1 + List.length d) t1)
-      end
-    end
-  end.
-Proof.
-  unfold core, tailproc. destruct (strip_prefix s d) as [t|]; [|reflexivity].
-  destruct (cut_eol t) as [[e0 t1]|]; [|reflexivity]. destruct (chain t1 d) as [n|]; [|reflexivity].
-  destruct (skipn (n + 1 + List.length d) t1) as [|x t2]; [reflexivity|].
-  destruct (cut_eol (x :: t2)) as [[e2 t3]|]; [|reflexivity].
-  destruct (cut_eol t3) as [[e3 t4]|]; assoc; reflexivity.
-Qed.
-
-Definition blank_cr (l : line) : bool :=
-  match l with ([], ECR) => true | _ => false end.
-
-Lemma tail_spec s front ec after :
-  (after = [] \/ wf after) -> lf_ended ec = true -> hdP blank_cr after = false ->
-  tailproc s front (eol_bytes ec ++ join after) =
-  let (bl, after') := absorb_blank after in Some (front ++ eol_bytes ec ++ join bl, join after').
-Proof.
-  intros W He Hb.
-  assert (T : forall e2, cut_eol (eol_bytes ec ++ join after) = Some (e2, join after) -> e2 = eol_bytes ec ->
-          (exists x t, eol_bytes ec ++ join after = x :: t) ->
-          match cut_eol (join after) with
-          | Some (e3, t4) => Some (front ++ e2 ++ e3, t4)
-          | None => Some (front ++ e2, join after)
-          end = (let (bl, after') := absorb_blank after in Some (front ++ eol_bytes ec ++ join bl, join after')) ->
-          tailproc s front (eol_bytes ec ++ join after) =
-          (let (bl, after') := absorb_blank after in Some (front ++ eol_bytes ec ++ join bl, join after'))).
-  { intros e2 Hc _ [x [t Hx]] G. unfold tailproc. rewrite Hc. rewrite Hx at 1. exact G. }
-  assert (G : match cut_eol (join after) with
-          | Some (e3, t4) => Some (front ++ eol_bytes ec ++ e3, t4)
-          | None => Some (front ++ eol_bytes ec, join after)
-          end = (let (bl, after') := absorb_blank after in Some (front ++ eol_bytes ec ++ join bl, join after'))).
-  { destruct after as [|[c1 e1] rest1].
-    - cbn. rewrite app_nil_r. reflexivity.
-    - destruct W as [W | W]; [discriminate|].
-      destruct c1 as [|h c1'].
-      + destruct e1.
-        * rewrite join_cons. cbn [app eol_bytes]. rewrite cut_eol_lf. reflexivity.
-        * rewrite join_cons. cbn [app eol_bytes]. rewrite cut_eol_crlf. reflexivity.
-        * discriminate Hb.
-        * inversion W; subst; [|discriminate]. cbn. rewrite app_nil_r. reflexivity.
-      + assert (Hh : is_nl h = false) by (apply (clean_hd h c1'); inversion W; assumption).
-        cbn [absorb_blank]. change (join []) with (@nil byte). rewrite app_nil_r.
-        rewrite join_cons. cbn [app]. rewrite (cut_eol_not_nl h _ Hh). reflexivity. }
-  destruct ec; try discriminate.
-  - apply (T fm_lf); [reflexivity | reflexivity | eexists; eexists; reflexivity | exact G].
-  - apply (T fm_crlf); [reflexivity | reflexivity | eexists; eexists; reflexivity | exact G].
-Qed.
-
-(* ------------------------------------------------------------------------------------------------ *)
-(* the closer search on lines, under the class conditions *)
-
-Lemma in_tl {A} (x : A) l : In x (tl l) -> In x l.
-Proof. destruct l; [intros [] | intro H; right; exact H]. Qed.
-
-Lemma tl_app_ne {A} (a b : list A) : a <> [] -> tl (a ++ b) = tl a ++ b.
-Proof. destruct a; [congruence | reflexivity]. Qed.
-
-Lemma existsb_false_in {A} (f : A -> bool) l : existsb f l = false -> forall x, In x l -> f x = false.
-Proof.
-  intros H x Hx. destruct (f x) eqn:E; [|reflexivity].
-  assert (existsb f l = true) by (apply existsb_exists; exists x; split; assumption). congruence.
-Qed.
-
-Lemma closer_chain d ls pre ec after :
-  ls = pre ++ (d, ec) :: after -> pre <> [] ->
-  (forall x, In x pre -> bytes_eqb (fst x) d = false) ->
-  (forall x, In x pre -> lf_ended (snd x) = true) ->
-  ec <> ECR ->
-  (ec = ELF -> existsb (exact_with d ECRLF) after = false) ->
-  (ec = EEOF -> after = [] /\ existsb (fun l => starts_with (fst l) d) (tl pre) = false) ->
-  exists n, chainP d ls = Some n /\ n + 1 = List.length (join pre).
-Proof.
-  intros -> Hne Hnx Hlf Hcr Hc3 Hc4. unfold chainP, or_else.
-  assert (Tl : forall P : line -> bool, (forall x, In x (tl pre) -> P x = false) -> P (d, ec) = false ->
-               (forall x, In x after -> P x = false) -> scanP P (pre ++ (d, ec) :: after) = None).
-  { intros P H1 H2 H3. apply scanP_none. rewrite (tl_app_ne pre _ Hne). intros l Hl.
-    apply in_app_or in Hl. destruct Hl as [Hl | [<- | Hl]]; [apply H1 | exact H2 | apply H3]; assumption. }
-  assert (Nx : forall e x, In x (tl pre) -> exact_with d e x = false).
-  { intros e x Hx. apply exact_with_false, Hnx, in_tl, Hx. }
-  destruct ec.
-  - (* closer LF *)
-    rewrite (Tl (exact_with d ECRLF) (Nx ECRLF)); [| unfold exact_with; cbn [fst snd]; rewrite andb_false_r; reflexivity
-                                                  | apply existsb_false_in, Hc3; reflexivity].
-    destruct (scanP_first (exact_with d ELF) (d, ELF) after pre Hne (Nx ELF)) as [n [Hs Hn]]; [|exact Hlf|].
-    { unfold exact_with. cbn [fst snd]. rewrite bytes_eqb_refl. reflexivity. }
-    rewrite Hs. exists n. split; [reflexivity | exact Hn].
-  - destruct (scanP_first (exact_with d ECRLF) (d, ECRLF) after pre Hne (Nx ECRLF)) as [n [Hs Hn]]; [|exact Hlf|].
-    { unfold exact_with. cbn [fst snd]. rewrite bytes_eqb_refl. reflexivity. }
-    rewrite Hs. exists n. split; [reflexivity | exact Hn].
-  - congruence.
-  - destruct (Hc4 eq_refl) as [-> Hp].
-    rewrite (Tl (exact_with d ECRLF) (Nx ECRLF)); [| unfold exact_with; cbn [fst snd]; rewrite andb_false_r; reflexivity | intros x []].
-    rewrite (Tl (exact_with d ELF) (Nx ELF)); [| unfold exact_with; cbn [fst snd]; rewrite andb_false_r; reflexivity | intros x []].
-    destruct (scanP_first (fun l : line => starts_with (fst l) d) (d, EEOF) [] pre Hne) as [n [Hs Hn]];
-      [apply existsb_false_in, Hp | apply starts_with_refl | exact Hlf |].
-    rewrite Hs. exists n. split; [reflexivity | exact Hn].
-Qed.
-
-(* ------------------------------------------------------------------------------------------------ *)
-(* assembly *)
-
-Definition spec_on (Ls : list line) (d : bytes) : option (bytes * bytes) :=
-  match Ls with
-  | (c0, e0) :: ls =>
-    if bytes_eqb c0 d && terminated e0 then
-      match find_closer d ls with
-      | Some (body, after) =>
-        let (bl, after') := absorb_blank after in
-        Some (join ((c0, e0) :: body ++ bl), join after')
-      | None => None
-      end
-    else None
-  | [] => None
-  end.
-
-Definition class_on (Ls : list line) (d : bytes) : N :=
-  match Ls with
-  | (c0, e0) :: ls =>
-    if bytes_eqb c0 d && terminated e0 then
-      match find_closer d ls with
-      | Some (body, after) =>
-        let (bl, _) := absorb_blank after in
-        if has_lone_cr (join ((c0, e0) :: body ++ bl)) then 1%N
-        else match body with
-             | [_] => 2%N
-             | _ =>
-               match last_eol body with
-               | ELF => if existsb (exact_with d ECRLF) after then 3%N else 0%N
-               | EEOF => if existsb (fun l => starts_with (fst l) d) (removelast (tl body)) then 4%N else 0%N
-               | _ => 0%N
-               end
-             end
-      | None => 0%N
-      end
-    else 0%N
-  | [] => 0%N
-  end.
-
-Lemma spec_split_on s d : delim_ok d = true -> spec_split s d = spec_on (lines (strip_bom s)) d.
-Proof. intro H. unfold spec_split, spec_split_gen. rewrite H. reflexivity. Qed.
-
-Lemma fm_class_on s d : delim_ok d = true -> fm_class s d = class_on (lines (strip_bom s)) d.
-Proof. intro H. unfold fm_class. rewrite H. reflexivity. Qed.
-
-Lemma absorb_app after bl after' : absorb_blank after = (bl, after') -> after = bl ++ after'.
-Proof.
-  unfold absorb_blank. destruct after as [|[c e] r]; [intros [= <- <-]; reflexivity|].
-  destruct c; [|intros [= <- <-]; reflexivity].
-  destruct (terminated e); intros [= <- <-]; reflexivity.
-Qed.
-
-Lemma body_match {A} (pre : list line) x (a b : A) : pre <> [] ->
-  match pre ++ [x] with [_] => a | _ => b end = b.
-Proof. destruct pre as [|p pre]; [congruence|]. intros _. destruct pre; reflexivity. Qed.
-
-Lemma last_eol_snoc pre d ec : last_eol (pre ++ [(d, ec)]) = ec.
-Proof. unfold last_eol. rewrite rev_app_distr. reflexivity. Qed.
-
-Lemma lf_ended_of e : terminated e = true -> e <> ECR -> lf_ended e = true.
-Proof. destruct e; try reflexivity; [congruence | discriminate]. Qed.
-
-Lemma main2 d e0 ls : clean d = true -> d <> [] -> wf ((d, e0) :: ls) -> wf ls ->
-  class_on ((d, e0) :: ls) d = 0%N -> terminated e0 = true ->
-  match chain (join ls) d with
-  | None => None
-  | Some n => tailproc (d ++ eol_bytes e0 ++ join ls)
-                (d ++ eol_bytes e0 ++ firstn n (join ls) ++ fm_lf ++ d)
-                (skipn (n + 1 + List.length d) (join ls))
-  end =
-  match find_closer d ls with
-  | Some (body, after) =>
-    let (bl, after') := absorb_blank after in Some (join ((d, e0) :: body ++ bl), join after')
-  | None => None
-  end.
-Proof.
-  intros Cd Nd W Wls Hk Te0.
-  pose proof (chain_scan d ls Cd Wls) as Hcs.
-  destruct (find_closer d ls) as [[body after]|] eqn:F.
-  - destruct (find_closer_some d ls body after F) as [pre [ec [-> [Hls Hnx]]]].
-    unfold class_on in Hk. rewrite bytes_eqb_refl, Te0, F in Hk. cbn [andb] in Hk.
-    destruct (absorb_blank after) as [bl after'] eqn:Ab. cbn beta iota in Hk.
-    pose proof (absorb_app _ _ _ Ab) as Haf.
-    assert (Wall : wf (((d, e0) :: (pre ++ [(d, ec)]) ++ bl) ++ after')).
-    { replace (((d, e0) :: (pre ++ [(d, ec)]) ++ bl) ++ after') with ((d, e0) :: ls); [exact W|].
-      rewrite Hls, Haf. cbn [app]. f_equal. rewrite <- !app_assoc. reflexivity. }
-    pose proof (hlc_join _ after' Wall) as HJ.
-    match type of Hk with (if ?b then _ else _) = _ => destruct b eqn:HL end; [discriminate Hk|].
-    assert (Ecr : existsb is_cr ((d, e0) :: (pre ++ [(d, ec)]) ++ bl) = false).
-    { etransitivity; [symmetry; exact HJ | exact HL]. }
-    clear HJ HL.
-    cbn [existsb] in Ecr. apply orb_false_elim in Ecr. destruct Ecr as [_ Ecr].
-    rewrite !existsb_app in Ecr. apply orb_false_elim in Ecr. destruct Ecr as [Ecr Ebl].
-    apply orb_false_elim in Ecr. destruct Ecr as [Epre Eec]. cbn [existsb] in Eec. rewrite orb_false_r in Eec.
-    assert (Hec : ec <> ECR) by (intros ->; discriminate Eec).
-    assert (Hne : pre <> []) by (intros ->; cbn [app] in Hk; discriminate Hk).
-    pose proof Wls as Wsplit. rewrite Hls in Wsplit.
-    rewrite (body_match pre (d, ec) _ _ Hne), last_eol_snoc in Hk.
-    assert (Hlf : forall x, In x pre -> lf_ended (snd x) = true).
-    { intros x Hx. apply lf_ended_of.
-      - apply (wf_prefix_terminated pre ((d, ec) :: after)); [discriminate | exact Wsplit | exact Hx].
-      - pose proof (existsb_false_in _ _ Epre x Hx) as Hx'. unfold is_cr in Hx'. intro Hcr. rewrite Hcr in Hx'. discriminate. }
-    destruct (closer_chain d ls pre ec after Hls Hne Hnx Hlf Hec) as [n [Hn Hlen]].
-    { intros ->. match type of Hk with (if ?b then _ else _) = _ => destruct b eqn:Eb end; [discriminate Hk | first [exact Eb | reflexivity]]. }
-    { intros ->. split.
-      - apply (wf_eof_last pre d after). exact Wsplit.
-      - match type of Hk with (if existsb ?f ?l then _ else _) = _ =>
-          assert (Hrl : l = tl pre) by (destruct pre; [congruence|]; cbn [app tl]; apply removelast_last);
-          rewrite Hrl in Hk end.
-        match type of Hk with (if ?b then _ else _) = _ => destruct b eqn:Eb end; [discriminate Hk | first [exact Eb | reflexivity]]. }
-    rewrite Hcs, Hn.
-    assert (Ht1 : join ls = (join pre ++ d) ++ eol_bytes ec ++ join after).
-    { rewrite Hls, join_app, join_cons, <- app_assoc. reflexivity. }
-    assert (Hch : chain (join ls) d = Some n) by (rewrite Hcs; exact Hn).
-    pose proof (chain_some _ _ _ Hch) as Hsome.
-    assert (Hsk : skipn (n + 1 + List.length d) (join ls) = eol_bytes ec ++ join after).
-    { replace (n + 1 + List.length d) with (List.length (join pre ++ d)) by (rewrite app_length; lia).
-      rewrite Ht1. apply skipn_app_len. }
-    rewrite Hsk in *.
-    assert (Hpre : firstn n (join ls) ++ fm_lf = join pre).
-    { apply (app_inv_tail (d ++ eol_bytes ec ++ join after)).
-      rewrite <- !app_assoc. rewrite <- Hsome. rewrite Ht1, <- !app_assoc. reflexivity. }
-    assert (Hfront : d ++ eol_bytes e0 ++ firstn n (join ls) ++ fm_lf ++ d = d ++ eol_bytes e0 ++ join pre ++ d).
-    { rewrite <- Hpre, <- !app_assoc. reflexivity. }
-    rewrite Hfront.
-    destruct (lf_ended ec) eqn:Lec.
-    + rewrite tail_spec; [| | exact Lec |].
-      * rewrite Ab. f_equal. f_equal.
-        rewrite join_cons, !join_app, join_cons. cbn [join flat_map]. rewrite app_nil_r, <- !app_assoc. reflexivity.
-      * destruct after as [|a af]; [left; reflexivity | right].
-        apply (wf_suffix (pre ++ [(d, ec)])); [discriminate|]. rewrite <- app_assoc. exact Wsplit.
-      * destruct after as [|[[|h c1] e1] af]; try reflexivity. destruct e1; try reflexivity.
-        cbn in Ab. injection Ab as <- <-. discriminate Ebl.
-    + destruct ec; try discriminate Lec; [congruence|].
-      assert (Haft : after = []) by (apply (wf_eof_last pre d after); exact Wsplit).
-      rewrite Haft in Ab, Hls |- *. cbn in Ab. injection Ab as <- <-.
-      change (join []) with (@nil byte). cbn [eol_bytes app tailproc].
-      f_equal. f_equal. rewrite app_nil_r, join_cons, Hls. reflexivity.
-  - pose proof (find_closer_none d ls F) as Hnx.
-    rewrite Hcs. unfold chainP, or_else.
-    rewrite (scanP_none (exact_with d ECRLF) ls) by (intros l Hl; apply exact_with_false, Hnx, in_tl, Hl).
-    rewrite (scanP_none (exact_with d ELF) ls) by (intros l Hl; apply exact_with_false, Hnx, in_tl, Hl).
-    destruct (scanP (fun l : line => starts_with (fst l) d) ls) as [n|] eqn:Hs; [|reflexivity].
-    destruct (scanP_some_inv _ ls n Hs) as [pre [[cl el] [after [Hls [Hne [Hp Hlen]]]]]].
-    cbn [fst] in Hp. apply starts_with_app in Hp. destruct Hp as [r' ->].
-    assert (Hcl : clean (d ++ r') = true) by (apply (wf_clean_in ls Wls _ el); rewrite Hls; apply in_or_app; right; left; reflexivity).
-    assert (Hx : bytes_eqb (fst (d ++ r', el)) d = false) by (apply Hnx; rewrite Hls; apply in_or_app; right; left; reflexivity).
-    cbn [fst] in Hx.
-    destruct r' as [|h r'']; [rewrite app_nil_r, bytes_eqb_refl in Hx; discriminate|].
-    rewrite clean_app in Hcl. apply andb_true_iff in Hcl. destruct Hcl as [_ Hcl]. apply clean_hd in Hcl.
-    assert (Hsk : skipn (n + 1 + List.length d) (join ls) = h :: r'' ++ eol_bytes el ++ join after).
-    { replace (n + 1 + List.length d) with (List.length (join pre ++ d)) by (rewrite app_length; lia).
-      rewrite Hls, join_app, join_cons.
-      replace (join pre ++ (d ++ h :: r'') ++ eol_bytes el ++ join after)
-        with ((join pre ++ d) ++ (h :: r'' ++ eol_bytes el ++ join after)) by (rewrite <- !app_assoc; reflexivity).
-      apply skipn_app_len. }
-    rewrite Hsk. unfold tailproc. rewrite (cut_eol_not_nl h _ Hcl). reflexivity.
-Qed.
-
-Lemma core_spec_on Ls d : wf Ls -> delim_ok d = true -> class_on Ls d = 0%N ->
-  core (join Ls) d = spec_on Ls d.
-Proof.
-  intros W Hd Hk. destruct (delim_ok_clean d Hd) as [Cd Nd].
-  destruct Ls as [|[c0 e0] ls]; [inversion W|].
-  assert (Hc0 : clean c0 = true) by (inversion W; assumption).
-  pose proof (wf_tail_hd_nl _ _ _ W) as Hx.
-  rewrite core_unfold. unfold spec_on.
-  destruct (bytes_eqb c0 d) eqn:E0.
-  2:{ cbn [andb]. rewrite join_cons. unfold strip_prefix. rewrite (sw_clean_prefix c0 d _ Hc0 Cd Hx).
-      destruct (starts_with c0 d) eqn:Es; [|reflexivity].
-      apply starts_with_app in Es. destruct Es as [r' ->].
-      destruct r' as [|h r'']; [rewrite app_nil_r, bytes_eqb_refl in E0; discriminate|].
-      rewrite <- app_assoc, skipn_app_len. cbn [app].
-      rewrite cut_eol_not_nl; [reflexivity|].
-      rewrite clean_app in Hc0. apply andb_true_iff in Hc0. destruct Hc0 as [_ Hc0]. apply (clean_hd h r'' Hc0). }
-  apply bytes_eqb_eq in E0. subst c0. cbn [andb]. rewrite join_cons, strip_prefix_app.
-  inversion W as [c Hc | c e rest Hc He Hcr Wls]; subst.
-  - reflexivity.
-  - destruct e0.
-    + cbn [eol_bytes app terminated]. rewrite cut_eol_lf.
-      apply (main2 d ELF ls Cd Nd W Wls Hk eq_refl).
-    + cbn [eol_bytes app terminated]. rewrite cut_eol_crlf.
-      apply (main2 d ECRLF ls Cd Nd W Wls Hk eq_refl).
-    + cbn [eol_bytes app terminated]. rewrite (cut_eol_cr _ (Hcr eq_refl)).
-      destruct (find_closer d ls) as [[body after]|] eqn:F; [|reflexivity].
-      exfalso. unfold class_on in Hk. rewrite bytes_eqb_refl, F in Hk. cbn [andb terminated] in Hk.
-      destruct (absorb_blank after) as [bl after'] eqn:Ab. cbn beta iota in Hk.
-      destruct (find_closer_some d ls body after F) as [pre [ec [-> [Hls _]]]].
-      pose proof (absorb_app _ _ _ Ab) as Haf.
-      assert (Wall : wf (((d, ECR) :: (pre ++ [(d, ec)]) ++ bl) ++ after')).
-      { replace (((d, ECR) :: (pre ++ [(d, ec)]) ++ bl) ++ after') with ((d, ECR) :: ls); [exact W|].
-        rewrite Hls, Haf. cbn [app]. f_equal. rewrite <- !app_assoc. reflexivity. }
-      pose proof (hlc_join _ after' Wall) as HJ.
-      match type of Hk with (if ?b then _ else _) = _ => destruct b eqn:HL end; [discriminate Hk|].
-      assert (Ecr : existsb is_cr ((d, ECR) :: (pre ++ [(d, ec)]) ++ bl) = false).
-      { etransitivity; [symmetry; exact HJ | exact HL]. }
-      discriminate Ecr.
-    + discriminate He.
-Qed.
-
-Lemma core_is_spec s d : delim_ok d = true -> fm_class s d = 0%N ->
-  core (trim_start_match s fm_bom) d = spec_split s d.
-Proof.
-  intros Hd Hk. rewrite trim_is_strip_bom, (spec_split_on s d Hd).
-  rewrite (fm_class_on s d Hd) in Hk.
-  rewrite <- (join_lines (strip_bom s)) at 1.
-  apply core_spec_on; [apply lines_wf | exact Hd | exact Hk].
-Qed.
-
-(* the conditional theorem: outside the four classes the model returns exactly what the spec says,
-   whenever it returns at all; on valid UTF-8 it always returns *)
-Lemma split_spec_partial s d r : delim_ok d = true -> fm_class s d = 0%N ->
-  split_off_front_matter s d = Ok r -> r = spec_split s d.
-Proof.
-  intros Hd Hk H. apply split_ok_core in H. rewrite H. apply core_is_spec; assumption.
-Qed.
-
-Lemma split_spec_partial_utf8 s d : utf8_valid s = true -> utf8_valid d = true ->
-  delim_ok d = true -> fm_class s d = 0%N ->
-  split_off_front_matter s d = Ok (spec_split s d).
-Proof.
-  intros Vs Vd Hd Hk. rewrite (split_total s d Vs Vd). f_equal. apply core_is_spec; assumption.
-Qed.
+Lemma line_count_spec fm : N.of_nat (count_line_endings fm) = spec_line_count fm.
+Proof. unfold spec_line_count. rewrite count_line_endings_lines. reflexivity. Qed.
 
 (* the spec never finds front matter where the splitter's shape is absent: the two readings of the
    documentation differ by at most the one absorbed blank line *)
